@@ -321,6 +321,8 @@ package redis
 //@   ensures @value result != nil && fresh(result) && result.Type == 45 && fresh(result.Text) && len(result.Text) == len(s)
 //@   ensures @error-reply-on-one-line oneline(result)
 //@   ensures @same-text-but-line-breaks forall i int :: 0 <= i && i < len(s) ==> result.Text[i] == ite(s[i] == 10 || s[i] == 13, 32, s[i])
+//@   loop 0 invariant len(b) == len(s) && fresh(b)
+//@   loop 0 invariant forall j int :: 0 <= j && j < len(s) ==> b[j] == ite(j <= rangeindex && (s[j] == 10 || s[j] == 13), 32, s[j])
 
 //@ func newSimpleString
 //@   prop C01
